@@ -116,12 +116,18 @@ class Likelihood:
 class Transform:
     """Prior transform with call counter (must be pure: re-evaluated by the monitors)."""
 
-    def __init__(self, target, dtype=None):
+    def __init__(self, target, dtype=None, alias=False):
         self.t = target
         self.n_calls = 0
         self.dtype = dtype
+        # alias: for a unit-cube prior the transform is the identity and returns ITS ARGUMENT (`lambda u: u`), so x and u are
+        # one object unless the library copies
+        self.alias = bool(alias) and bool(np.all(np.asarray(target.lo) == 0.0) and np.all(np.asarray(target.hi) == 1.0)) \
+            and type(target).prior_transform.__qualname__.startswith("Target.")
 
     def __call__(self, u):
         self.n_calls += 1
+        if self.alias:
+            return u
         x = self.t.prior_transform(u)
         return x if self.dtype is None else np.asarray(x).astype(self.dtype)
